@@ -33,16 +33,22 @@ def _grid(n, prefix="p"):
     return ps, dom
 
 
-def replay_pp(model, n=3, mode="reference", labelled=False, pdtype="f8", krw_zero_row=None):
+def replay_pp(model, n=3, mode="reference", labelled=False, pdtype="f8", krw_zero_row=None, kr_identity=False):
     import numpy as np
     from bluebonnet.flow import flowproperties as fp
     names = [f"p{k}" for k in range(n)] + [f"So{k}" for k in range(n)] + list(RHO) + ["scale"]
-    m = model_floats(model, names, default=dict(rho_o0=50.0, rho_g0=0.05, rho_w0=62.4, scale=2.0, **{f"So{k}": 0.5 for k in range(n)}))
+    m = model_floats(model, names, default=dict(rho_o0=50.0, rho_g0=0.05, rho_w0=62.4, scale=2.0, **{f"So{k}": 0.3 + 0.1 * k for k in range(n)},
+                                                **{f"p{k}": 1000.0 * (k + 1) for k in range(n)}))
     pvt = {k: uf_callable(model, k, 1.0) for k in PVT_FUNCS}
     pvt.update({k: m[k] for k in RHO})
     kr = {k: uf_callable(model, k, 0.5) for k in KR_FUNCS}
     p = np.array([m[f"p{k}"] for k in range(n)])
     so = np.array([m[f"So{k}"] for k in range(n)])
+    if kr_identity:
+        # straight-line relative permeabilities written the obvious way: kro returns the saturation array it was given
+        so = np.clip(so, 0.05, 0.85)
+        kr["kro"] = lambda s: s
+        kr["krg"] = lambda s: 0.9 - s
     if krw_zero_row is not None:
         # water immobile at the saturation of one row (a Corey curve with a critical saturation), mobile elsewhere
         if len(set(np.round(so, 12).tolist())) < n:
@@ -64,10 +70,14 @@ def replay_pp(model, n=3, mode="reference", labelled=False, pdtype="f8", krw_zer
         p_in, so_in = pd.Series(p, index=lab), pd.Series(so, index=lab)
     else:
         p_in, so_in = p, so
+    so_before = np.array(so, copy=True)
     try:
         got = np.asarray(fp.pseudopressure_threephase(p_in, so_in, pvt, kr), dtype=float)
     except (KeyError, IndexError, ValueError, TypeError) as ex:
         return True, {"what": f"pseudopressure_threephase raised {ex!r} on an admissible table", "inputs": m}
+    if not np.array_equal(np.asarray(so_in, float), so_before):
+        return True, {"what": f"pseudopressure_threephase changed the caller's saturation array from {so_before.tolist()} to {np.asarray(so_in, float).tolist()}", "inputs": m}
+    so = so_before
     lam = np.array([float(mobility(pvt, kr, p[k], so[k])) for k in range(n)])
     want = np.concatenate([[0.0], np.cumsum(np.diff(p) * (lam[:-1] + lam[1:]) / 2)])
     if mode == "reference":
@@ -86,7 +96,7 @@ def replay_pp(model, n=3, mode="reference", labelled=False, pdtype="f8", krw_zer
     return bad, {"what": f"mobility scaled by {m['scale']!r}: {got2.tolist()} vs {m['scale']!r} x {got.tolist()}", "inputs": m}
 
 
-def job_pp(job, n, labelled=False, pdtype="f8", krw_zero_row=None):
+def job_pp(job, n, labelled=False, pdtype="f8", krw_zero_row=None, kr_identity=False):
     mod = _load()
     job.encoded(mod, "pseudopressure_threephase")
     job.stub("pvt[...] / kr[...] interpolators: positive uninterpreted functions; scipy cumulative_trapezoid: exact")
@@ -107,6 +117,13 @@ def job_pp(job, n, labelled=False, pdtype="f8", krw_zero_row=None):
     kr = {k: _uf(k) for k in KR_FUNCS}
     parr, soarr = SymArray(ps, "f8"), SymArray(so, "f8")
     ltag = ""
+    if kr_identity:
+        # straight-line oil / gas relative permeabilities written as plain functions of the array they are given: kro returns
+        # its argument (the caller's own array object), krg = 0.9 - So
+        kr = dict(kr, kro=lambda s: s, krg=lambda s: Q(9, 10) - s)
+        dom = dom + [T.b_lt(T.ZERO, P(v)) for v in so] + [T.b_lt(P(v), T.Poly.const(Fraction(9, 10))) for v in so]
+        ltag = ",kro returns the saturation array it is given"
+        job.bound(rel_perm_callables="kro(So) = So (the same array object), krg(So) = 0.9 - So; 0 < So < 0.9")
     if krw_zero_row is not None:
         # water is immobile at the saturation of one row and mobile at the others (relative-permeability curves have a critical
         # saturation): the water term is then present at some rows and exactly zero at that one
@@ -131,17 +148,31 @@ def job_pp(job, n, labelled=False, pdtype="f8", krw_zero_row=None):
         ltag = ",Series labelled n-1..0"
         job.bound(labelled_rows="pressure and So are pandas Series whose index labels are n-1..0 in row order (a table put in "
                                 "order with sort_values); positions, not labels, define the grid")
-    res = paths(job, lambda: (mod.pseudopressure_threephase(parr, soarr, pvt, kr),
-                              mod.pseudopressure_threephase(parr, soarr, pvt2, kr)), dom)
+    hold = {}
+
+    def run_pp():
+        # fresh containers on every path (same elements): whatever the call does to the caller's arrays is seen, and does not
+        # leak into the next path
+        pa, sa = parr.copy(), soarr.copy()
+        first = mod.pseudopressure_threephase(pa, sa, pvt, kr)
+        hold["touched"] = [nm for nm, arr, ref in (("pressure", pa, parr), ("So", sa, soarr)) if len(arr.d) != len(ref.d) or any(P(x) != P(y) for x, y in zip(arr.d, ref.d))]
+        return first, mod.pseudopressure_threephase(parr.copy(), soarr.copy(), pvt2, kr), list(hold["touched"])
+    res = paths(job, run_pp, dom)
     for k, pr in enumerate(res):
         if pr.exc is not None:
             if isinstance(pr.exc, (KeyError, IndexError, ValueError, TypeError)):
                 job.prove(f"pp[{n}{ltag}]/raises {type(pr.exc).__name__}[path{k}]", pr.pc, bound=f"{n} rows", note=repr(pr.exc)[:100],
-                          replay=(replay_pp, {"n": n, "mode": "reference", "labelled": labelled, "pdtype": pdtype, "krw_zero_row": krw_zero_row}))
+                          replay=(replay_pp, {"n": n, "mode": "reference", "labelled": labelled, "pdtype": pdtype, "krw_zero_row": krw_zero_row, "kr_identity": kr_identity}))
             else:
                 job.errors.append(f"pseudopressure path {k} raised {pr.exc!r}")
             continue
-        got, got2 = pr.value
+        got, got2, was = pr.value
+        if was:
+            job._violation(f"pp[{n}{ltag}]/the caller's pressure and saturation arrays are left alone[path{k}]", {},
+                           {"what": f"pseudopressure_threephase wrote to the caller's {', '.join(was)} array", "replayer": "replay_pp",
+                            "replayer_kwargs": {"n": n, "mode": "reference", "labelled": labelled, "pdtype": pdtype, "krw_zero_row": krw_zero_row, "kr_identity": kr_identity}}, None)
+        else:
+            job.record(f"pp[{n}{ltag}]/the caller's pressure and saturation arrays are left alone[path{k}]", "unsat", 0.0, note="effect check on the path")
         lam = [mobility(pvt, kr, ps[j], so[j]) for j in range(n)]
         want = [Q(0)]
         for j in range(n - 1):
@@ -155,19 +186,19 @@ def job_pp(job, n, labelled=False, pdtype="f8", krw_zero_row=None):
             d = T.p_sub(P(got.d[j]), P(want[j]))
             neq = T.b_const(False) if d.is_zero() else T.b_or(T.b_lt(tolb, d), T.b_lt(tolb, T.p_neg(d)))
             job.prove(f"pp[{n}{ltag}]/row{j}==trapezoid of documented mobility[path{k}]", pr.pc + [neq], bound=f"{n} rows, any table",
-                      replay=(replay_pp, {"n": n, "mode": "reference", "labelled": labelled, "pdtype": pdtype, "krw_zero_row": krw_zero_row}))
+                      replay=(replay_pp, {"n": n, "mode": "reference", "labelled": labelled, "pdtype": pdtype, "krw_zero_row": krw_zero_row, "kr_identity": kr_identity}))
         job.prove(f"pp[{n}{ltag}]/first row 0[path{k}]", pr.pc + [T.b_not(T.b_eq0(P(got.d[0])))], bound=f"{n} rows",
-                  replay=(replay_pp, {"n": n, "mode": "increasing", "labelled": labelled, "pdtype": pdtype, "krw_zero_row": krw_zero_row}))
+                  replay=(replay_pp, {"n": n, "mode": "increasing", "labelled": labelled, "pdtype": pdtype, "krw_zero_row": krw_zero_row, "kr_identity": kr_identity}))
         job.prove(f"pp[{n}{ltag}]/strictly increasing for positive mobility[path{k}]",
                   pr.pc + [T.b_or(*[T.b_le(P(got.d[j + 1]), P(got.d[j])) for j in range(n - 1)])], bound=f"{n} rows",
-                  replay=(replay_pp, {"n": n, "mode": "increasing", "labelled": labelled, "pdtype": pdtype, "krw_zero_row": krw_zero_row}))
+                  replay=(replay_pp, {"n": n, "mode": "increasing", "labelled": labelled, "pdtype": pdtype, "krw_zero_row": krw_zero_row, "kr_identity": kr_identity}))
         job.prove(f"pp[{n}{ltag}]/homogeneous in mobility[path{k}]",
                   pr.pc + [T.b_or(*[T.b_not(T.b_eq0(T.p_sub(P(got2.d[j]), P(vs["scale"] * got.d[j])))) for j in range(n)])],
-                  bound=f"{n} rows", replay=(replay_pp, {"n": n, "mode": "scale", "labelled": labelled, "pdtype": pdtype, "krw_zero_row": krw_zero_row}))
+                  bound=f"{n} rows", replay=(replay_pp, {"n": n, "mode": "scale", "labelled": labelled, "pdtype": pdtype, "krw_zero_row": krw_zero_row, "kr_identity": kr_identity}))
         job.prove(f"pp[{n}{ltag}]/reach[path{k}]", pr.pc, expect="sat")
     # translator validation
-    if krw_zero_row is not None:
-        return          # the plain variants validate the encoding; here krw is a different function by construction
+    if krw_zero_row is not None or kr_identity:
+        return          # the plain variants validate the encoding; here the rel-perm functions differ by construction
     import numpy as np
     from bluebonnet.flow import flowproperties as fp
     real_pvt = {"Bo": lambda q: 1.1 + 2e-5 * q, "Bg": lambda q: 5.0 / q, "Bw": lambda q: 1.0 - 3e-6 * q, "Rs": lambda q: 0.1 * q,
@@ -412,7 +443,8 @@ def job_table(job, n, node, kr_desc=False, ref_order=None, effects_only=False):
 
 def jobs(tier):
     out = [("pp3", lambda j: job_pp(j, 3)), ("pp3-labelled", lambda j: job_pp(j, 3, labelled=True)),
-           ("pp3-int-pressure", lambda j: job_pp(j, 3, pdtype="i8")), ("pp3-krw-zero-at-one-row", lambda j: job_pp(j, 3, krw_zero_row=1))]
+           ("pp3-int-pressure", lambda j: job_pp(j, 3, pdtype="i8")), ("pp3-krw-zero-at-one-row", lambda j: job_pp(j, 3, krw_zero_row=1)),
+           ("pp3-kro-returns-its-argument", lambda j: job_pp(j, 3, kr_identity=True))]
     if tier != "quick":
         out += [("pp4", lambda j: job_pp(j, 4)), ("pp5", lambda j: job_pp(j, 5)), ("pp7", lambda j: job_pp(j, 7)), ("pp4-labelled", lambda j: job_pp(j, 4, labelled=True)),
                 ("table4-node1", lambda j: job_table(j, 4, 1)), ("table4-node3", lambda j: job_table(j, 4, 3)), ("table4-node2-kr-descending", lambda j: job_table(j, 4, 2, True)),
